@@ -11,7 +11,7 @@ R == T[l]
 TReset == /\ Ev("Reset")
           /\ kind' = [v \in Ids |-> "none"] /\ child' = [v \in Ids |-> 0] /\ rc' = [v \in Ids |-> 0]
           /\ slot' = [x \in Objs \X Slots |-> 0] /\ couts' = [o \in Objs |-> <<>>] /\ alive' = [o \in Objs |-> TRUE]
-          /\ inp' = <<>> /\ conn' = TRUE
+          /\ inp' = <<>> /\ conn' = TRUE /\ bulk' = [o \in Objs |-> <<>>]
 TOp == /\ Ev("Op")
        /\ CASE R.op = "new" -> NewVal(R.o, R.i, R.k)
             [] R.op = "copy" -> Copy(R.o, R.i, R.p, R.j)
@@ -21,6 +21,8 @@ TOp == /\ Ev("Op")
             [] R.op = "fp" -> NewFp(R.o, R.i, R.j)
             [] R.op = "callout" -> CallOut(R.o, R.i)
             [] R.op = "rmco" -> \E k \in 1..2 : RmCallOut(R.o, k)
+            [] R.op = "many" -> Many(R.o, R.i)
+            [] R.op = "unmany" -> Unmany(R.o)
             [] R.op = "inp" -> InputTo(R.o, R.i)
             [] R.op = "line" -> InputLine
             [] R.op = "drop" -> Drop
